@@ -257,6 +257,11 @@ def mutate(rng, spec, asg, pool, slots=None, typed_pair=False, fixed=0, near=Fal
             pass
         if near and isinstance(old, float) and rng.random() < 0.7:
             opts = [old + d for d in (1e-4, -1e-4, 0.004, -0.004, 0.04, -0.04, 0.4, 4.0, 40.0)]
+        if near and isinstance(old, (_fr.Fraction, _dc.Decimal)) and rng.random() < 0.8:
+            # a nearby non-float number: must stay a different argument whatever the tolerance
+            opts = [old + type(old)(1) / type(old)(d) for d in (30, 300, 7)]
+        if near and isinstance(old, complex) and rng.random() < 0.8:
+            opts = [old + 0.004, old + 0.004j]
         if not opts:
             return None
         val = rng.choice(opts)
@@ -370,8 +375,12 @@ def shallow_oracle(obj, tol):
     return obj
 
 
+import fractions as _fr
+import decimal as _dc
 ROUND_SCALARS = [1.25, 1.35, 2.5, 0.5, 1.5, -0.5, 1.0049, 1.005, 123.456, 149.9, 150.0, 151.0,
-                 0.30000000000000004, 0.3, 1e-09, 0.0, 1.26, 1.24, 2.51, 7, -3, 'abc', 'a', b'xy', None]
+                 0.30000000000000004, 0.3, 1e-09, 0.0, 1.26, 1.24, 2.51, 7, -3, 'abc', 'a', b'xy', None,
+                 # numbers that are not floats: never to be rounded
+                 _fr.Fraction(1, 3), _fr.Fraction(63, 50), _dc.Decimal('1.26'), True, 10 ** 20 + 1, 1.5 + 0.26j]
 ROUND_NESTED = [[1.26, 'a'], (1.26, [2.51, 3]), {'p': 1.26}, {'p': [1.24, {'q': 2.51}]},
                 [1.24, 'a'], (1.24, [2.49, 3]), {'p': 1.24}, [[1.26]], [[1.24]], (7, 'abc'),
                 (1.26, 'x'), frozenset([0.52, 'x']), (frozenset([1.26, 2]), 'y'), (1.2, (2.4, 'a'))]
@@ -388,10 +397,12 @@ ROUND_HOSTILE = [{'__d__': [[1, 1.26]]}, {'__d__': [[1, 1.24]]}, {'__r__': [0, 3
 ALGOS = ['no', 'inf', 'lfu', 'lru', 'mru', 'rr']
 
 
-def make_deco(case, maxsize=None):
+def make_deco(case, maxsize=None, cache=None):
     mod = klepto.safe if case.get('safe') else klepto
     cls = getattr(mod, case.get('deco', 'inf') + '_cache')
     kw = {'keymap': gen.build_keymap(klepto, case['keymap'])}
+    if cache is not None:
+        kw['cache'] = cache
     if case.get('ignore'):
         ign = case['ignore']
         # a single name or index may be given bare (ignore=0, ignore='x'), as the docs allow
@@ -554,6 +565,18 @@ def run_case(case, prop):
             judge_equiv(J, tgt, f, kg, rng, spec_call, asg, fixed)
         elif prop == 'C10':
             judge_distinct(J, tgt, f, kg, rng, spec_call, asg, fixed, pool)
+            if kind == 'partial' and tgt.pk and rng.random() < 0.5:
+                # a keyword fixed by the partial can still be overridden by the caller: p(1) and p(1, k=other)
+                # bind different values (the function's own default for k is the most telling "other")
+                n = rng.choice(sorted(tgt.pk))
+                others = [v for v in ([tgt.defaults[n]] if n in tgt.defaults else []) + pool if _ne(v, tgt.pk[n])]
+                if others:
+                    c1 = spell(rng, spec_call, asg, tgt.defaults, fixed)
+                    c1[1].pop(n, None)
+                    c2 = (list(c1[0]), dict(c1[1]))
+                    c2[1][n] = others[0] if rng.random() < 0.6 else rng.choice(others)
+                    J.note('c10_partial_keyword_overrides')
+                    check_distinct(J, tgt, f, kg, c1, c2, ('partial-kw', n), False)
         elif prop == 'C11':
             judge_ignore(J, tgt, f, kg, rng, spec_call, asg, fixed, pool)
         elif prop == 'C12':
@@ -612,6 +635,24 @@ def behaviour(J, tgt, case, first, second, own_deco=False):
     n0 = len(tgt.log)
     r = tgt.call_through(g, *second)
     return len(tgt.log) - n0, r
+
+
+def behaviour_archived(tgt, case, first, second):
+    """call `first`, dump to a pickling file archive, clear the memory, call `second`: evaluations of second"""
+    from kv.common import Scratch
+    import os
+    with Scratch('km') as root:
+        c2 = dict(case)
+        c2['deco'] = 'inf'
+        arch = klepto._archives.file_archive(os.path.join(root, 'a.pkl'))
+        deco = make_deco(c2, cache=klepto.archives.cache(archive=arch))
+        g = tgt.decorate(deco)
+        tgt.call_through(g, *first)
+        g.dump()
+        g.clear()
+        n0 = len(tgt.log)
+        tgt.call_through(g, *second)
+        return len(tgt.log) - n0
 
 
 def nonflat_order_mech(tgt, case, c1, c2):
@@ -945,6 +986,18 @@ def judge_ignore(J, tgt, f, kg, rng, spec, asg, fixed, pool):
                               % (ign, srepr(c1), srepr(c2), slot))
                 except TypeError:
                     pass
+                if gen.key_kind(case['keymap']) == 'raw' and rng.random() < 0.15:
+                    # the shared entry must also be found again after it went through an archive that pickles
+                    # its keys (the placeholder klepto puts in place of an ignored argument is an object)
+                    try:
+                        n = behaviour_archived(tgt, case, c1, c2)
+                        J.note('c11_behaviour_checks_through_pickling_archive')
+                        if n != 0:
+                            J.bad('C11', 'ignored-argument-recomputed-after-archiving',
+                                  'ignore=%r: %s was archived (file_archive) and cleared from memory; %s (differs only in '
+                                  'ignored %r) was then evaluated again instead of being loaded' % (ign, srepr(c1), srepr(c2), slot))
+                    except TypeError:
+                        pass
     # (2) calls differing in a non-ignored slot still discriminate
     allslots = [('pos', n) for n in asg['pos']] + [('var', i) for i in range(len(asg['var']))] + \
                [('kwonly', n) for n in asg['kwonly']] + [('kw', n) for n in asg['kw']]
